@@ -34,8 +34,13 @@ def mir_dump(scratch, package, logdir):
     return text, dt
 
 
+# z3 4.8.12 (/usr/bin/z3) times out (> 60 s) on the div/mod terms of the SX126x kernel that
+# z3 5.1.0 (z3-new) and cvc5 decide in < 1 s: the solver pair is z3-new + cvc5.
+SOLVERS = ("z3-new", "cvc5")
+
+
 def solve(smt, solver, timeout=300):
-    cmd = {"z3": ["z3", "-in", "-T:%d" % timeout], "cvc5": ["cvc5", "--lang", "smt2", "--incremental", "--tlimit=%d" % (timeout * 1000)]}[solver]
+    cmd = {"z3": ["z3", "-in", "-T:%d" % timeout], "z3-new": ["z3-new", "-in", "-T:%d" % timeout], "cvc5": ["cvc5", "--lang", "smt2", "--incremental", "--tlimit=%d" % (timeout * 1000)]}[solver]
     rc, out, dt = _run(cmd, inp=smt.encode(), timeout=timeout + 30)
     return out, dt
 
@@ -143,8 +148,8 @@ C17_QUERIES = [
      "(not (and (f127_ok f) (g127_ok (f127 f))))"),
     ("sx127x_floor", "f127", "word * Fxtal <= f * 2^19 < (word + 1) * Fxtal  (within one 61.04 Hz step)",
      "(not (and (<= (* (f127 f) 32000000) (* f 524288)) (< (* f 524288) (* (+ (f127 f) 1) 32000000))))"),
-    ("sx127x_roundtrip", "g127", "0 <= f - pll_step_to_freq(freq_to_pll_step(f)) < 62",
-     "(not (and (<= (g127 (f127 f)) f) (< (- f (g127 (f127 f))) 62)))"),
+    ("sx127x_roundtrip", "g127", "0 <= f - pll_step_to_freq(freq_to_pll_step(f)) <= 62 (one 61.04 Hz step plus the truncation of the inverse)",
+     "(not (and (<= (g127 (f127 f)) f) (<= (- f (g127 (f127 f))) 62)))"),
 ]
 
 
@@ -192,7 +197,7 @@ def job_c17_pll(tier):
             q = prelude
             for x in samples:
                 q += "(push)(declare-const r1 Int)(declare-const r2 Int)(declare-const r3 Int)(assert (= r1 (f126 %d)))(assert (= r2 (f127 %d)))(assert (= r3 (g127 %d)))(check-sat)(get-value (r1 r2 r3 (f126_ok %d) (g127_ok %d)))(pop)\n" % (x, x, x, x, x)
-            out, dt = solve(q, "z3", 300)
+            out, dt = solve(q, SOLVERS[0], 300)
             ans = parse_answers(out)
             if len(ans) != len(samples) or any(a[0] != "sat" for a in ans):
                 raise lrv.Inconclusive("translator validation: solver did not evaluate the encoding: " + out[:300])
@@ -220,18 +225,18 @@ def job_c17_pll(tier):
             for qid, kern, desc, neg in C17_QUERIES:
                 q = prelude + "(declare-const f Int)\n(assert (and (>= f %d) (<= f %d)))\n(assert %s)\n(check-sat)\n(get-value (f))\n" % (FMIN, FMAX, neg)
                 r = {}
-                for solver in ("z3", "cvc5"):
+                for solver in SOLVERS:
                     out, dt = solve(q, solver, 240 if tier == "quick" else 1800)
                     res["solver_time_s"] += dt
                     a = parse_answers(out)
                     r[solver] = (a[0] if a else ["error", out[:200]]) + [round(dt, 2)]
                     res["queries"] += 1
-                verdicts.append(dict(query=qid, property=desc, z3=r["z3"][0], cvc5=r["cvc5"][0], z3_s=r["z3"][2], cvc5_s=r["cvc5"][2]))
-                kinds = {r["z3"][0], r["cvc5"][0]}
+                verdicts.append({"query": qid, "property": desc, SOLVERS[0]: r[SOLVERS[0]][0], SOLVERS[1]: r[SOLVERS[1]][0], SOLVERS[0] + "_s": r[SOLVERS[0]][2], SOLVERS[1] + "_s": r[SOLVERS[1]][2]})
+                kinds = {r[SOLVERS[0]][0], r[SOLVERS[1]][0]}
                 if kinds == {"unsat"}:
                     continue
                 if "sat" in kinds:
-                    model = r["z3"][1] if r["z3"][0] == "sat" else r["cvc5"][1]
+                    model = r[SOLVERS[0]][1] if r[SOLVERS[0]][0] == "sat" else r[SOLVERS[1]][1]
                     m = re.search(r"\(f (\d+)\)", model)
                     fval = int(m.group(1)) if m else None
                     ok_native = True
@@ -241,7 +246,7 @@ def job_c17_pll(tier):
                             w = n2.get(("f127", fval))
                             n3 = native_eval(scratch, [w], logdir) if w != "PANIC" else {}
                             g = n3.get(("g127", w))
-                            ok_native = g != "PANIC" and g is not None and 0 <= fval - g < 62
+                            ok_native = g != "PANIC" and g is not None and 0 <= fval - g <= 62
                         else:
                             ok_native = check_prop_python(qid, fval, n2)
                         res["validated"] += 1
@@ -258,7 +263,7 @@ def job_c17_pll(tier):
                     entry["reason"] = "solver model for %s did not reproduce natively (f=%s)" % (qid, fval)
                     break
                 res["verdict"] = "inconclusive"
-                entry["reason"] = "query %s: z3=%s cvc5=%s" % (qid, r["z3"][0], r["cvc5"][0])
+                entry["reason"] = "query %s: %s=%s %s=%s" % (qid, SOLVERS[0], r[SOLVERS[0]][0], SOLVERS[1], r[SOLVERS[1]][0])
                 break
             entry["queries"] = verdicts
         except (lrv.Inconclusive, mir2smt.Unsupported) as e:
